@@ -69,6 +69,7 @@ class TreeGen:
         self.counter = 0
         self.features: set[str] = set()
         self.counters_available: list[str] = []
+        self.counter_digits: dict[str, int] = {}
 
     def fresh(self, prefix: str = "F") -> str:
         self.counter += 1
@@ -119,8 +120,9 @@ class TreeGen:
                 if base.is_group and in_occurs:
                     self.features.add("nested-occurs")
             elif (o["odo"] and snapshot and rng.random() < 0.5 and not in_occurs):
-                lo, hi = rng.choice([(0, 3), (1, 4), (0, 5), (2, 2), (1, 9), (10, 12)])
-                base.odo = (lo, hi, rng.choice(snapshot))
+                ctr = rng.choice(snapshot)
+                lo, hi = rng.choice([(0, 3), (1, 4), (0, 5), (2, 2), (1, 9)] + ([(10, 12)] if self.counter_digits.get(ctr, 1) >= 2 else []))
+                base.odo = (lo, hi, ctr)
                 occ_here = True
                 self.features.add("odo-group" if base.is_group else "odo-elem")
             if base.is_group and occ_here:
@@ -132,10 +134,11 @@ class TreeGen:
                     and rng.random() < 0.6:
                 # make it usable as a counter: small unsigned zoned or binary number
                 if rng.random() < 0.7:
-                    base.pic, base.usage, base.width = rng.choice([("9(3)", None, 3), ("99", None, 2), ("9(2)", None, 2)])
+                    base.pic, base.usage, base.width = rng.choice([("9", None, 1), ("9(3)", None, 3), ("99", None, 2), ("9(2)", None, 2)])
                 else:
                     base.pic, base.usage, base.width = "9(4)", "COMP", 2
                 self.counters_available.append(base.name)  # type: ignore[arg-type]
+                self.counter_digits[base.name] = 4 if base.usage == "COMP" else base.width  # type: ignore[index]
             # REDEFINES of the item just emitted
             may_redefine = (o["redefines"] and base.name not in (None, "FILLER") and not any(x.odo for x in preorder(base))
                             and (not in_occurs or o["redefines_in_occurs"])
